@@ -17,11 +17,12 @@ PROPS = {
     'C06': {
         'level': 'exploration',
         'budget': {'quick': 45, 'thorough': 900},
-        'parts': [{'sim': 'sph'}],
+        'parts': [{'sim': 'sph', 'share': 3}, {'sim': 'transfer', 'share': 1, 'env': {'VERIF_ORACLES': 'C01'}}],
         'rule': 'seeded histories (5-400 ops: sends in three spaces, network loss, honest/adversarial ACKs, timer expiries, drops, Retry, '
                 '0-RTT rejection, migration) against the real sentPacketHandler; non-trivial = more than 3 frames tracked or a fault/adversarial op fired; '
-                'distinct = distinct abstract op/outcome sequences (hash)',
-        'real_vs_stub': 'real: internal/ackhandler sentPacketHandler + congestion + RTT stats; stub: peer, network, packer (model)',
+                'distinct = distinct abstract op/outcome sequences (hash); plus whole connections (W:transfer with its liveness clauses: the deadline the handler sets has to wake the connection - '
+                'flights and their acknowledgements lost in an outage that also wipes the NAT binding, path probes during an outage, window-limited senders)',
+        'real_vs_stub': 'real: internal/ackhandler sentPacketHandler + congestion + RTT stats, for the transfer part the whole client and server; stub: peer, network, packer (model); UDP network for the transfer part',
         'assumptions': ['the model caller follows the SendMode contract like the connection does'],
         'level_text': 'seeded search over histories of the real sent-packet handler against a reference model; invariants after every event, exactly-once and liveness after a drain phase; failures are shrunk and replay bit-for-bit',
         'level_note': 'trusted: the reference model (frame states, in-flight set, amplification and confirmation flags), the Go runtime overlay, synctest fake clock; samples histories, not exhaustive',
@@ -84,10 +85,11 @@ for _p, _txt in (('C02', 'every dial of every generated spec must complete the h
 
 PROPS['C03'] = {
     'level': 'fault_enumeration', 'budget': {'quick': 60, 'thorough': 900},
-    'parts': [{'sim': 'recvstream', 'mode': 'sweep', 'share': 1}, {'sim': 'recvstream', 'share': 3}],
+    'parts': [{'sim': 'recvstream', 'mode': 'sweep', 'share': 1}, {'sim': 'recvstream', 'share': 3}, {'sim': 'transfer', 'share': 1, 'env': {'VERIF_ORACLES': 'C01'}}],
     'rule': 'bounded sweep: every arrival schedule (permutation, duplicate/re-split insertion, FIN placement, reader behaviour) of streams of <= 5 segments over a 6-cell offset lattice '
             'with cells on both sides of the 128-byte copy threshold; plus seeded long histories (segments, reads, peeks, deadlines, CancelRead, RESET_STREAM / RESET_STREAM_AT, shutdown, adversarial frames) '
-            'against the real ReceiveStream + flow controllers, frameSorter and cryptoStream with a byte-array model and buffer poisoning; non-trivial = a fault or adversarial step fired; distinct = distinct abstract histories',
+            'against the real ReceiveStream + flow controllers, frameSorter and cryptoStream with a byte-array model and buffer poisoning; non-trivial = a fault or adversarial step fired; distinct = distinct abstract histories; '
+            'plus whole connections (W:transfer: what is read is a prefix of what was written under every network fault, writers that give up in mid-stream with RESET_STREAM and RESET_STREAM_AT through the real frame codec)',
     'real_vs_stub': 'real: ReceiveStream, frameSorter, cryptoStream(+manager), flow controllers, wire frame parser and its buffer pool; stub: peer, network, connection (model)',
     'assumptions': ['8 independent histories are batched into one kernel scenario; evaluations counts scenarios'],
     'level_text': 'exhaustive enumeration of fault schedules over a bounded segment lattice plus seeded search over long histories, byte-array reference model, buffer-reuse detection',
